@@ -6,7 +6,7 @@ PROP = dict(
     bounded_budget=dict(quick=45, thorough=420),
     assumptions=[],
     trusted_base=['z3 5.1 / cvc5 1.0.3', 'pyvc symbolic executor and its encoding of Python (DESIGN.md section 2.3)', 'CPython 3.12, PLY 3.11 (A-PLY)'],
-    manifest=dict(text='Bounded: depth-1 operator applications exhaustive, every single statement x 3 populations, every control-flow nesting up to 3 statements, sampled programs up to 6 statements; result and final population compared with an independent reference evaluator over a plain relational model.',
+    manifest=dict(text='Deductive core (tier P, 56 obligations): binary/unary operator tables, literals, cardinality, if/elif/else, select-from, create/delete/relate/unrelate(-using) and assignment handlers of the interpreter against the language equations, children abstract. Bounded: depth-1 operator applications exhaustive, every single statement x 3 populations, every control-flow nesting up to 3 statements, sampled programs up to 6 statements; result and final population compared with an independent reference evaluator over a plain relational model.',
                   note='PLY (A-PLY); type-correct, error-free programs; integer / and % on negative operands are a separate item (known finding).',
-                  technique='bounded stand-in: run-time contracts on the real functions driven by exhaustive small-scope enumeration (labelled bounded, never counted as proved)'),
+                  technique='bounded stand-in (run-time contracts on the real functions driven by small-scope enumeration; labelled bounded, never counted as proved) decides the property sentence; contract-based deductive verification: sidecar contracts on the real functions, verification conditions generated from the current source of /repo on every run by pyvc (Python AST -> z3/cvc5), every obligation discharged function by function for the listed kernel functions, reported separately as tier P'),
 )
